@@ -358,6 +358,28 @@ Proof.
 Qed.
 Print Assumptions C18_class_classmethod_frozen_cls_refuted.
 
+(* ---- require_kwargs on top of another wrapper of a method, applied by call ------------------------------------------------ *)
+(* Full statement (FALSE on the current source, open known finding C18-K12): in every stack, every call that passes
+   nothing positionally except self goes through require_kwargs unchanged.
+   Proved (C18_transparent_require_kwargs_keyword_call, C18_compose_any_stack) for the calls on which the code's own
+   keyword-only test answers "keyword call" (cx_assert_kw cx a k = None).  That test does not count the first `strip`
+   positional arguments; the code derives strip from the source text and from getfullargspec of what it decorates:
+   1 for `@require_kwargs @trace def m(self, x)`, but 0 for K.m = require_kwargs(trace(K.m)), where self then counts
+   as a positional argument. *)
+Definition kw_test (strip : nat) : args -> kwargs -> option exn :=
+  fun a _ => if Nat.ltb strip (List.length a) then Some PCallWithArgsC else None.
+Definition ex_cx_kw (strip : nat) (f : cdesc jst) : ctx jst :=
+  Build_ctx (fun _ => f) (fun _ => VNone) [] (fun _ _ => false) (fun _ _ => true) (kw_test strip) raise_warning_prog.
+
+Theorem C18_require_kwargs_by_call_over_wrapped_method_refuted :
+  exists self k,
+    let m := ex_fn 1 in          (* def m(self, **kw) as far as binding goes *)
+    fst (use_stacked d_require_kwargs (ex_cx_kw 0 m) d_trace (ex_cx m) [self] k ex_s0) = RExc PCallWithArgsC (XFresh 1) /\
+    fst (use_stacked d_require_kwargs (ex_cx_kw 1 m) d_trace (ex_cx m) [self] k ex_s0) = ROk (VObj 100) /\
+    fst (use_callee m [self] k ex_s0) = ROk (VObj 100).
+Proof. exists (VObj 50), [("x"%string, VObj 5)]. vm_compute. repeat split; reflexivity. Qed.
+Print Assumptions C18_require_kwargs_by_call_over_wrapped_method_refuted.
+
 (* ---- non-vacuity ------------------------------------------------------------------------------------------------------- *)
 (* the hypotheses of the theorems above are satisfiable (by a def and by an async def), and the wrappers really run
    the callee *)
